@@ -38,7 +38,7 @@ RULE = (
     "part|context|scheme|settings index|password|keywords (registry: name|path)"
 )
 
-PASSWORDS = ("pw-C17", "Pässwörd €17")
+PASSWORDS = ("pw-C17", "Pässwörd €17", "")  # the empty password is admissible: its plaintext "hash" is the empty string
 CATCH_ALL = ("plaintext", "ldap_plaintext", "roundup_plaintext", "unix_disabled", "django_disabled")
 DJANGO_PRESETS = ("passlib-default", "django-default", "django-latest", "django-1.0", "django-1.4", "django-1.6")
 UNDOCUMENTED = ("master_context",)
